@@ -28,7 +28,9 @@ pub fn gen_cfg(rng: &mut Rng, i: u64) -> IncCfg {
     // the six fee/flow kind combinations need: native fee / cw20 fee, lp native / cw20
     let lp = if i % 2 == 0 { 3 } else { 10 };
     let fee_asset = match (i / 2) % 4 { 0 => 0, 1 => 11, 2 => if lp == 3 { 3 } else { 10 }, _ => 1 };
-    let fee = match rng.below(6) { 0 => 1, 1 => 999, 2 => 12_345, _ => 1000 };
+    // a zero creation fee only with a native fee asset (the bank refuses the zero transfer to the collector, so every OpenFlow must
+    // fail); with a cw20 fee asset a zero TransferFrom depends on whether cw20-base still holds an allowance record - not modelled
+    let fee = match rng.below(7) { 0 => 1, 1 => 999, 2 => 12_345, 3 if fee_asset < 10 => 0, _ => 1000 };
     let (min_unb, max_unb) = match rng.below(6) { 0 => (86_400, 259_200), 1 => (1_000, 31_556_926), 2 => (86_400, 40_000_000), _ => (86_400, 31_556_926) };
     IncCfg { lp, fee_asset, fee, max_flows: *rng.pick(&[1u64, 2, 3, 7, 7]), buffer: *rng.pick(&[0u64, 2, 14, 14]), min_unb, max_unb }
 }
